@@ -3,14 +3,14 @@
 import json, sys
 pid = sys.argv[1]
 mode = sys.argv[2] if len(sys.argv) > 2 else 'break'      # break | break2 | harmless
-root = {'break': '/tmp/seed', 'break2': '/tmp/seed2', 'harmless': '/tmp/harmless'}[mode]
+root = {'break': '/tmp/seed', 'break2': '/tmp/seed2', 'break3': '/tmp/seed3', 'harmless': '/tmp/harmless'}[mode]
 hints = ''
 for l in open('/verif/properties.jsonl'):
     p = json.loads(l)
     if p['id'] == pid:
         break
 import glob, os
-if mode == 'break2':
+if mode in ('break2', 'break3'):
     used = []
     for d in sorted(glob.glob('/verif/seeded/%s-*' % pid)):
         try:
